@@ -21,6 +21,11 @@ const (
 	KFile Kind = iota
 	KDir
 	KFifo
+	// KSymlink: a symbolic link whose target does not exist (the only kind the
+	// workloads make: a command that leaves a dangling link where its output
+	// should be). Calls that follow links (stat, open) see ENOENT; lstat, rename,
+	// unlink and directory listings see the link itself.
+	KSymlink
 )
 
 type Inode struct {
@@ -198,10 +203,42 @@ func (f *FS) Lookup(cwd, path string) (*Inode, error) {
 	if e != 0 {
 		return nil, perr("stat", path, e)
 	}
-	if n == nil {
+	if n == nil || n.Kind == KSymlink {
 		return nil, perr("stat", path, syscall.ENOENT)
 	}
 	return n, nil
+}
+
+// Symlink creates a dangling symbolic link at path.
+func (f *FS) Symlink(cwd, path, target string) error {
+	p, name, n, abs, e := f.walk(cwd, path)
+	if e != 0 {
+		return perr("symlink", path, e)
+	}
+	if n != nil {
+		return perr("symlink", path, syscall.EEXIST)
+	}
+	if p == nil {
+		return perr("symlink", path, syscall.ENOENT)
+	}
+	d := f.newInode(KSymlink)
+	d.Data = []byte(target)
+	p.Ents[name] = d
+	f.journal("symlink", abs, target, d.Ino)
+	return nil
+}
+
+// GoLstat: stat without following a link in the last component.
+func (f *FS) GoLstat(path string) (iofs.FileInfo, error) {
+	f.s.Pre("lstat", 0, path)
+	_, _, n, _, e := f.walk(f.Cwd, path)
+	if e != 0 {
+		return nil, perr("lstat", path, e)
+	}
+	if n == nil {
+		return nil, perr("lstat", path, syscall.ENOENT)
+	}
+	return infoOf(base(path), n), nil
 }
 
 func (f *FS) Mkdir(cwd, path string) error {
@@ -270,6 +307,10 @@ func (f *FS) Create(cwd, path string) (*Inode, string, error) {
 			return nil, "", perr("open", path, syscall.EISDIR)
 		case KFifo:
 			return n, abs, nil
+		case KSymlink:
+			// (open with O_CREAT through a dangling link creates the target: the
+			// model keeps it simple and turns the link into the file)
+			n.Kind = KFile
 		}
 		n.Data = nil
 		n.Mtime = f.s.Cfg.Epoch + f.s.now
@@ -474,6 +515,8 @@ func (fi *FileInfo) Mode() iofs.FileMode {
 		m |= iofs.ModeDir
 	case KFifo:
 		m |= iofs.ModeNamedPipe
+	case KSymlink:
+		m |= iofs.ModeSymlink
 	}
 	return m
 }
